@@ -186,7 +186,16 @@ fn supply_candidates(t: &SupplyTrace) -> Vec<SupplyTrace> {
     out
 }
 
-pub fn minimise_supply(prop: &str, clause: &str, t: &SupplyTrace, scratch: &Scratch) -> (SupplyTrace, bool) {
+pub fn minimise_supply(prop: &str, clause: &str, t: &SupplyTrace, scratch: &Scratch, history: &[Trace]) -> (SupplyTrace, bool) {
+    let still = |prop: &str, clause: &str, c: &Trace, scratch: &Scratch| -> bool {
+        if history.is_empty() {
+            still(prop, clause, c, scratch)
+        } else {
+            let mut v = history.to_vec();
+            v.push(c.clone());
+            still(prop, clause, &Trace::Seq(v), scratch)
+        }
+    };
     let mut cur = t.clone();
     let mut changed = false;
     let mut budget = 4000;
@@ -220,11 +229,40 @@ pub fn minimise(prop: &str, clause: &str, t: &Trace, scratch: &Scratch) -> (Trac
     }
     match t {
         Trace::Supply(s) => {
-            let (m, ch) = minimise_supply(prop, clause, s, scratch);
+            let (m, ch) = minimise_supply(prop, clause, s, scratch, &[]);
             (Trace::Supply(m), ch)
         }
+        Trace::Seq(ts) => {
+            let last = match ts.last() {
+                Some(l) => l.clone(),
+                None => return (t.clone(), false),
+            };
+            // does the last trace fail on its own? then the history is not needed
+            if still(prop, clause, &last, scratch) {
+                let (m, _) = minimise(prop, clause, &last, scratch);
+                return (m, true);
+            }
+            // keep the history; shrink the last trace with the history replayed before every candidate
+            let hist: Vec<Trace> = ts[..ts.len() - 1].to_vec();
+            match &last {
+                Trace::Supply(s) => {
+                    let (m, ch) = minimise_supply(prop, clause, s, scratch, &hist);
+                    let mut v = hist.clone();
+                    v.push(Trace::Supply(m));
+                    (Trace::Seq(v), ch)
+                }
+                Trace::Ceremony(c) => {
+                    let h = hist.iter().rev().find_map(|x| if let Trace::Ceremony(h) = x { Some(h.clone()) } else { None });
+                    let (m, ch) = crate::ceremony::minimise(prop, clause, c, h.as_ref());
+                    let mut v = hist.clone();
+                    v.push(Trace::Ceremony(m));
+                    (Trace::Seq(v), ch)
+                }
+                _ => (t.clone(), false),
+            }
+        }
         Trace::Ceremony(c) => {
-            let (m, ch) = crate::ceremony::minimise(prop, clause, c);
+            let (m, ch) = crate::ceremony::minimise(prop, clause, c, None);
             (Trace::Ceremony(m), ch)
         }
         Trace::Channel(c) => {
